@@ -11,7 +11,10 @@ histories are the canonical ones: `run_canon`, `run_get` in `Props/C12.lean`). T
 quantify over EVERY proof set and exclusion leaf (not only generated ones) and need collision freedom of
 the hash (`CollisionFree`). The byte-level verifiers of `sparse/proof.rs` (`Model/SparseStore.lean`) are
 shown to compute exactly these structural verifiers for 32-byte keys (`verifyInclusion_bytes`,
-`verifyExclusion_bytes`); `generate_proof` of the storage-level model is tied by the stream `c14`.
+`verifyExclusion_bytes`); `generate_proof` of the storage-level model is PROVED to return the structural proof on
+every storage state reachable by a history of the transcribed `insert` / `delete`
+(`store_generateProof_refines`), and all clauses are restated on the transcribed functions alone
+(`store_history_proofs`). The stream `c14` ties the transcription to the Rust code.
 -/
 import FuelVerif.Lemmas.SparseProof
 import FuelVerif.Props.C12
